@@ -289,12 +289,12 @@ theorem gen_dec_compute_secret_key_array_eq (want n k : Nat) (cR cW : List P) (h
       .ok (encode (callActs (n * k) true A want cR cW)) :=
   gq_dec_compute_eq A want n k cR cW hd hnk hA h1
 
-/-- the same for `KeyGenerator::compute_secret_key_array` (its translation is the same term) -/
+/-- the same for `KeyGenerator::compute_secret_key_array` (proved separately: a change to ONE of the two copies breaks that one) -/
 theorem gen_kg_compute_secret_key_array_eq (want n k : Nat) (cR cW : List P) (hd : 0 < n * k) (hnk : n * k < B64)
     (hA : max cR.length want * n * k < B64) (h1 : 1 ≤ cR.length) :
     GenConc.kg_compute_secret_key_array want n k (cR.length * (n * k)) (cW.length * (n * k)) =
-      .ok (encode (callActs (n * k) true A want cR cW)) := by
-  rw [gq_kg_eq_dec]; exact gq_dec_compute_eq A want n k cR cW hd hnk hA h1
+      .ok (encode (callActs (n * k) true A want cR cW)) :=
+  gq_kg_compute_eq A want n k cR cW hd hnk hA h1
 
 /-- ... in every run: for the caches of ANY two states along ANY schedule (the thread reads in the first, writes in the second) the
     generated program is the model's call and respects the lock discipline (no lock is requested while one is held) -/
